@@ -499,6 +499,14 @@ def body_text(body):
     return " ".join(toks) if toks else "epsilon"
 
 
+def gamma_cats(c):
+    """the same grammar with one category called like the parser's own dummy start variable"""
+    m = {"A": "Gamma", "B": "Gamma'", "X": "Gamma", "Y": "BEGIN"}
+    c["prods"] = [[m.get(h, h), hf, [[x[0], m.get(x[1], x[1])] + x[2:] if x[0] == "V" else x for x in body]]
+                  for h, hf, body in c["prods"]]
+    return c
+
+
 def lower_cats(c):
     """the same grammar with lower-case category names (everything but the start symbol)"""
     m = {"A": "np", "B": "vp", "C": "det", "X": "x1", "Y": "y"}
@@ -615,8 +623,11 @@ def plan(tier, rng, sl, nslices, stats):
         if i % 10 == 9:
             yield bars_fcfg(rng)
             continue
-        if rng.random() < 0.15:
+        r_ = rng.random()
+        if r_ < 0.15:
             c = lower_cats(c)
+        elif r_ < 0.27:
+            c = gamma_cats(c)
         if c["via"] == "text" and rng.random() < 0.2:
             c["inline_eps"] = rng.randint(1, 4)
         if c["via"] == "text" and rng.random() < 0.35:
